@@ -42,6 +42,19 @@ fn stack_slot_addr(index: usize) -> (r: usize) ensures r == index { index }
 //@enum file=yarel/src/object.rs name=ObjUpvalueState map "*mut Value" => "usize"
 //@struct file=yarel/src/object.rs name=ObjUpvalue
 
+// the value stacks as far as open upvalue cells see them: slot address -> content (object.rs derefs `*mut Value`)
+pub struct Mem { pub ghost m: Map<int, Value> }
+impl Mem {
+    #[verifier::external_body]
+    fn read(&self, a: usize) -> (r: Value) requires self.m.dom().contains(a as int) ensures r == self.m[a as int] { unimplemented!() }
+    #[verifier::external_body]
+    fn write(&mut self, a: usize, v: Value) requires old(self).m.dom().contains(a as int) ensures final(self).m == old(self).m.insert(a as int, v) { unimplemented!() }
+}
+// THE variable a cell stands for: the stack slot while the declaring scope is live, the cell's own storage afterwards
+pub open spec fn var_value(u: ObjUpvalue, m: Map<int, Value>) -> Value {
+    match u.data { ObjUpvalueState::Open(a) => m[a as int], ObjUpvalueState::Closed(v) => v }
+}
+
 pub open spec fn slot_of(u: ObjUpvalue) -> int {
     match u.data { ObjUpvalueState::Open(a) => a as int, ObjUpvalueState::Closed(_) => -1 }
 }
@@ -58,11 +71,23 @@ impl ObjUpvalue {
     //@  ensures r.data == ObjUpvalueState::Open(address), r.next is None, r.owner == Some(owner)
     //@end
 
-    // object.rs get(): reads through the raw slot pointer when open (outside Verus); closed cells return their value
-    #[verifier::external_body]
-    pub(crate) fn get(&self) -> (r: Value)
-        ensures self.data matches ObjUpvalueState::Closed(v) ==> r == v,
-    { unimplemented!() }
+    // object.rs get() / set(): an OPEN cell reads / writes the value-stack slot it points at (`unsafe { *a }` becomes a
+    // read / write of the memory stand-in `Mem`, keyed by slot address), a CLOSED cell its own storage: `var_value`
+    //@fn file=yarel/src/object.rs path=ObjUpvalue::get ret=r props=C06
+    //@  sig "(&self)" => "(&self, mem: &Mem)"
+    //@  subst "unsafe { *a }" => "mem.read(a)"
+    //@  requires self.data matches ObjUpvalueState::Open(a) ==> mem.m.dom().contains(a as int)
+    //@  ensures @reading_a_captured_variable_yields_the_variables_value r == var_value(*self, mem.m)
+    //@end
+    //@fn file=yarel/src/object.rs path=ObjUpvalue::set props=C06
+    //@  sig "value: Value)" => "value: Value, mem: &mut Mem)"
+    //@  subst "unsafe { *a = value }" => "mem.write(a, value)"
+    //@  requires old(self).data matches ObjUpvalueState::Open(a) ==> old(mem).m.dom().contains(a as int)
+    //@  ensures @writing_a_captured_variable_sets_the_variable var_value(*final(self), final(mem).m) == value
+    //@  ensures final(self).next == old(self).next, final(self).owner == old(self).owner
+    //@  ensures @an_open_cell_writes_the_live_stack_slot old(self).data matches ObjUpvalueState::Open(a) ==> final(self).data == old(self).data && final(mem).m == old(mem).m.insert(a as int, value)
+    //@  ensures @a_closed_cell_writes_its_own_storage_only old(self).data is Closed ==> final(self).data == ObjUpvalueState::Closed(value) && final(mem).m == old(mem).m
+    //@end
 
     //@fn file=yarel/src/object.rs path=ObjUpvalue::is_open_with_pred ret=r
     //@  sig "*const Value" => "usize"
@@ -71,7 +96,11 @@ impl ObjUpvalue {
     //@end
 
     //@fn file=yarel/src/object.rs path=ObjUpvalue::close props=C06,C01
+    //@  sig "(&mut self)" => "(&mut self, mem: &Mem)"
+    //@  subst "self.get()" => "self.get(mem)"
+    //@  requires old(self).data matches ObjUpvalueState::Open(a) ==> mem.m.dom().contains(a as int)
     //@  ensures final(self).data is Closed, final(self).next == old(self).next
+    //@  ensures @closing_takes_the_variables_value_along final(self).data == ObjUpvalueState::Closed(var_value(*old(self), mem.m))
     //@  ensures @a_closed_upvalue_no_longer_pins_the_fiber final(self).owner is None
     //@  ensures old(self).data matches ObjUpvalueState::Closed(v) ==> final(self).data == ObjUpvalueState::Closed(v)
     //@end
@@ -99,7 +128,7 @@ impl UvHeap {
     { unimplemented!() }
 }
 
-//@struct file=yarel/src/object.rs name=ObjFiber keepfields=open_upvalues addfield "pub uvheap: UvHeap" addfield "pub ghost open_list: Seq<int>" addfield "pub ghost self_id: int"
+//@struct file=yarel/src/object.rs name=ObjFiber keepfields=open_upvalues addfield "pub uvheap: UvHeap" addfield "pub ghost open_list: Seq<int>" addfield "pub ghost self_id: int" addfield "pub mem: Mem" addfield "pub ghost sp: int"
 
 pub open spec fn slot_at(h: Map<int, ObjUpvalue>, l: Seq<int>, i: int) -> int { slot_of(h[l[i]]) }
 pub open spec fn cell_ok(h: Map<int, ObjUpvalue>, l: Seq<int>, i: int) -> bool { h.dom().contains(l[i]) && h[l[i]].data is Open }
@@ -126,6 +155,12 @@ impl ObjFiber {
     }
 }
 
+// every open cell of the list points at a slot that exists (what makes reading through it meaningful)
+pub open spec fn live_at(h: Map<int, ObjUpvalue>, l: Seq<int>, m: Map<int, Value>, i: int) -> bool { m.dom().contains(slot_at(h, l, i)) }
+impl ObjFiber {
+    pub open spec fn live(&self) -> bool { forall|i: int| 0 <= i < self.open_list.len() ==> #[trigger] live_at(self.uvheap.cells, self.open_list, self.mem.m, i) }
+}
+
 pub proof fn lemma_distinct(f: ObjFiber)
     requires f.wf()
     ensures forall|i: int, j: int| 0 <= i < f.open_list.len() && 0 <= j < f.open_list.len() && i != j ==> f.open_list[i] != f.open_list[j]
@@ -135,6 +170,40 @@ pub proof fn lemma_distinct(f: ObjFiber)
         if i < j { assert(slot_at(h, l, i) > slot_at(h, l, j)); } else { assert(slot_at(h, l, j) > slot_at(h, l, i)); }
     }
 }
+
+// C06 "a closure shares the very variable it captured … with every other closure that captured it": a stack slot has at
+// most ONE open cell, so two closures whose Closure instruction captured the same slot (closure_impl: "THE open cell of
+// slot slot_base + index") hold the same cell — and get_upvalue_impl / set_upvalue_impl read and write through the cell.
+//@lemma name=lemma_c06_one_cell_per_captured_slot props=C06
+pub proof fn lemma_c06_one_cell_per_captured_slot(f: ObjFiber, a: int, b: int, s: usize)
+    requires f.wf(), f.open_list.contains(a), f.open_list.contains(b),
+        f.uvheap.cells[a].data == ObjUpvalueState::Open(s), f.uvheap.cells[b].data == ObjUpvalueState::Open(s),
+    ensures a == b
+{
+    let l = f.open_list; let h = f.uvheap.cells;
+    let i = choose|i: int| 0 <= i < l.len() && l[i] == a;
+    let j = choose|j: int| 0 <= j < l.len() && l[j] == b;
+    if i < j { assert(slot_at(h, l, i) > slot_at(h, l, j)); } else if j < i { assert(slot_at(h, l, j) > slot_at(h, l, i)); }
+}
+// … and a write through one cell (set_upvalue_impl: "writes at most the slot the cell is open on") leaves the variable
+// of every OTHER open cell of the fiber as it was: shadowed and neighbouring variables are not disturbed
+//@lemma name=lemma_c06_a_write_leaves_other_variables_alone props=C06
+pub proof fn lemma_c06_a_write_leaves_other_variables_alone(f: ObjFiber, i: int, j: int, v: Value)
+    requires f.wf(), 0 <= i < f.open_list.len(), 0 <= j < f.open_list.len(), i != j
+    ensures var_value(f.uvheap.cells[f.open_list[j]], f.mem.m.insert(slot_at(f.uvheap.cells, f.open_list, i), v)) == var_value(f.uvheap.cells[f.open_list[j]], f.mem.m)
+{
+    let l = f.open_list; let h = f.uvheap.cells;
+    assert(cell_ok(h, l, i)); assert(cell_ok(h, l, j));
+    if i < j { assert(slot_at(h, l, i) > slot_at(h, l, j)); } else { assert(slot_at(h, l, j) > slot_at(h, l, i)); }
+}
+// … and the local variable and its open cell are the same storage: GetLocal k reads mem[slot_base + k]
+// (get_local_impl), the cell opened on that slot reads the same address (ObjUpvalue::get); after the scope has exited
+// the cell holds what the slot held (close_upvalues: "a closed cell holds the value its slot had").
+//@lemma name=lemma_c06_open_cell_and_local_are_one_variable props=C06
+pub proof fn lemma_c06_open_cell_and_local_are_one_variable(u: ObjUpvalue, m: Map<int, Value>, slot: usize)
+    requires u.data == ObjUpvalueState::Open(slot)
+    ensures var_value(u, m) == m[slot as int], forall|v: Value| var_value(u, m.insert(slot as int, v)) == v
+{}
 
 // closing the head cell and unlinking it keeps the rest of the list well formed
 pub proof fn lemma_close_head(f0: ObjFiber, f1: ObjFiber, c: ObjUpvalue)
@@ -269,14 +338,17 @@ impl ObjFiber {
     //@  subst "&self.stack[index] as *const _" => "stack_slot_addr(index)"
     //@  subst "self .open_upvalues .unwrap() .borrow()" => "self.uvheap.get(self.open_upvalues.unwrap())"
     //@  subst "upvalue.borrow_mut()" => "self.uvheap.get_mut(upvalue)"
-    //@  requires old(self).wf()
-    //@  ensures final(self).wf(), final(self).self_id == old(self).self_id
+    //@  subst "borrowed_upvalue.close()" => "borrowed_upvalue.close(&self.mem)"
+    //@  requires old(self).wf(), old(self).live()
+    //@  ensures final(self).wf(), final(self).self_id == old(self).self_id, final(self).mem == old(self).mem, final(self).sp == old(self).sp, final(self).live()
+    //@  ensures @a_closed_cell_holds_the_value_its_slot_had forall|i: int| 0 <= i < old(self).open_list.len() && slot_at(old(self).uvheap.cells, old(self).open_list, i) >= index ==> final(self).uvheap.cells[#[trigger] old(self).open_list[i]].data == ObjUpvalueState::Closed(old(self).mem.m[slot_at(old(self).uvheap.cells, old(self).open_list, i)])
     //@  ensures forall|i: int| 0 <= i < old(self).open_list.len() && slot_at(old(self).uvheap.cells, old(self).open_list, i) >= index ==> final(self).uvheap.cells[#[trigger] old(self).open_list[i]].data is Closed && !final(self).open_list.contains(old(self).open_list[i])
     //@  ensures forall|i: int| 0 <= i < old(self).open_list.len() && slot_at(old(self).uvheap.cells, old(self).open_list, i) < index ==> final(self).uvheap.cells[#[trigger] old(self).open_list[i]] == old(self).uvheap.cells[old(self).open_list[i]] && final(self).open_list.contains(old(self).open_list[i])
     //@  ensures forall|i: int| 0 <= i < final(self).open_list.len() ==> #[trigger] slot_at(final(self).uvheap.cells, final(self).open_list, i) < index
     //@  ensures @a_closed_cell_no_longer_links_to_the_open_list forall|i: int| 0 <= i < old(self).open_list.len() && slot_at(old(self).uvheap.cells, old(self).open_list, i) >= index ==> final(self).uvheap.cells[#[trigger] old(self).open_list[i]].next is None
     //@  at body.start let ghost mut k: int = 0; proof { lemma_distinct(*old(self)); }
-    //@  loop 0 invariant 0 <= k <= old(self).open_list.len(), self.wf(), old(self).wf(), self.self_id == old(self).self_id
+    //@  loop 0 invariant 0 <= k <= old(self).open_list.len(), self.wf(), old(self).wf(), self.self_id == old(self).self_id, self.mem == old(self).mem, self.sp == old(self).sp, old(self).live()
+    //@  loop 0 invariant forall|i: int| 0 <= i < k ==> self.uvheap.cells[#[trigger] old(self).open_list[i]].data == ObjUpvalueState::Closed(old(self).mem.m[slot_at(old(self).uvheap.cells, old(self).open_list, i)])
     //@  loop 0 invariant self.open_list =~= old(self).open_list.subrange(k, old(self).open_list.len() as int)
     //@  loop 0 invariant forall|v: usize| #[trigger] predicate.requires((v,))
     //@  loop 0 invariant forall|v: usize, r: bool| #[trigger] predicate.ensures((v,), r) ==> r == (v >= index)
@@ -284,9 +356,9 @@ impl ObjFiber {
     //@  loop 0 invariant forall|i: int| k <= i < old(self).open_list.len() ==> self.uvheap.cells[#[trigger] old(self).open_list[i]] == old(self).uvheap.cells[old(self).open_list[i]]
     //@  loop 0 invariant self.open_list.len() > 0 ==> cell_ok(self.uvheap.cells, self.open_list, 0)
     //@  loop 0 decreases old(self).open_list.len() - k
-    //@  at loop0.start let ghost pre = *self;
+    //@  at loop0.start let ghost pre = *self; proof { assert(self.open_list[0] == old(self).open_list[k]); assert(live_at(old(self).uvheap.cells, old(self).open_list, old(self).mem.m, k)); }
     //@  at loop0.end proof { self.open_list = self.open_list.subrange(1, self.open_list.len() as int); lemma_close_head(pre, *self, self.uvheap.cells[pre.open_list[0]]); lemma_distinct(*old(self)); k = k + 1; }
-    //@  at body.end proof { if k < old(self).open_list.len() { assert(self.open_list[0] == old(self).open_list[k]); } lemma_close_exit(*old(self), *self, k, index); }
+    //@  at body.end proof { if k < old(self).open_list.len() { assert(self.open_list[0] == old(self).open_list[k]); } lemma_close_exit(*old(self), *self, k, index); assert forall|i: int| 0 <= i < self.open_list.len() implies #[trigger] live_at(self.uvheap.cells, self.open_list, self.mem.m, i) by { assert(self.open_list[i] == old(self).open_list[i + k]); assert(live_at(old(self).uvheap.cells, old(self).open_list, old(self).mem.m, i + k)); } }
     //@end
 }
 
@@ -294,6 +366,7 @@ impl ObjFiber {
 pub struct FnInfo { pub upvalue_count: usize }
 // the closure being created (its upvalue vector is written through `closure.upvalues.borrow_mut()[i] = …`)
 pub struct NewClosure { }
+pub struct RunningClosure { }
 // the VM as far as this unit is concerned: the content of its active fiber; for the Closure instruction: the operand
 // bytes ahead, the frame's slot base, the enclosing closure's upvalues and the new closure's upvalue vector
 pub struct Vm {
@@ -355,6 +428,71 @@ impl Vm {
     // what operand pair i of the instruction says (operands start right behind the function constant)
     pub open spec fn op_is_local(&self, ip0: int, i: int) -> bool { self.code[ip0 + 2 * i] != 0 }
     pub open spec fn op_index(&self, ip0: int, i: int) -> int { self.code[ip0 + 2 * i + 1] as int }
+
+    // ---- variable access instructions: the value stack of the active fiber is the address range 0..sp of `mem`
+    // (slot i has address i: stack_slot_addr), Stack::push/peek/index by contract (their own contract: Kani unit `stack`)
+    #[verifier::external_body]
+    fn push(&mut self, value: Value)
+        ensures final(self).fib.mem.m == old(self).fib.mem.m.insert(old(self).fib.sp, value), final(self).fib.sp == old(self).fib.sp + 1,
+            final(self).fib.uvheap == old(self).fib.uvheap, final(self).fib.open_list == old(self).fib.open_list, final(self).fib.open_upvalues == old(self).fib.open_upvalues, final(self).fib.self_id == old(self).fib.self_id,
+            final(self).ip == old(self).ip, old(self).same_instr(final(self)), final(self).fresh == old(self).fresh
+    { unimplemented!() }
+    #[verifier::external_body]
+    fn peek(&self, depth: usize) -> (r: Value) requires depth < self.fib.sp, self.fib.mem.m.dom().contains(self.fib.sp - 1 - depth) ensures r == self.fib.mem.m[self.fib.sp - 1 - depth] { unimplemented!() }
+    // `self.active_fiber().stack[i]` (R25) and `self.active_fiber_mut().stack[i] = v`: out of range is a host panic in the
+    // checked configuration and an out-of-bounds access in the optimised one — the obligation
+    #[verifier::external_body]
+    fn stack_at(&self, i: usize) -> (r: Value) requires i < self.fib.sp, self.fib.mem.m.dom().contains(i as int) ensures r == self.fib.mem.m[i as int] { unimplemented!() }
+    #[verifier::external_body]
+    fn stack_set(&mut self, i: usize, value: Value)
+        requires i < old(self).fib.sp
+        ensures final(self).fib.mem.m == old(self).fib.mem.m.insert(i as int, value), final(self).fib.sp == old(self).fib.sp,
+            final(self).fib.uvheap == old(self).fib.uvheap, final(self).fib.open_list == old(self).fib.open_list, final(self).fib.open_upvalues == old(self).fib.open_upvalues, final(self).fib.self_id == old(self).fib.self_id,
+            final(self).ip == old(self).ip, old(self).same_instr(final(self)), final(self).fresh == old(self).fresh
+    { unimplemented!() }
+    // `…current_frame().unwrap().closure`: the running closure (its upvalue vector is `enclosing`)
+    #[verifier::external_body]
+    fn current_closure(&self) -> RunningClosure { unimplemented!() }
+    pub open spec fn stack_mapped(&self) -> bool { forall|i: int| 0 <= i < self.fib.sp ==> self.fib.mem.m.dom().contains(i) }
+    pub open spec fn operand(&self) -> int { self.code[self.ip] as int }
+    // the cell upvalue operand k of the running closure names, and the variable it stands for
+    pub open spec fn up_cell(&self, k: int) -> ObjUpvalue { self.fib.uvheap.cells[self.enclosing[k].id()] }
+    pub open spec fn up_ok(&self, k: int) -> bool {
+        &&& 0 <= k < self.enclosing.len() && self.fib.uvheap.cells.dom().contains(self.enclosing[k].id())
+        &&& (self.up_cell(k).data matches ObjUpvalueState::Open(a) ==> self.fib.mem.m.dom().contains(a as int))
+    }
+
+    // GetLocal / SetLocal: local `operand` of the running frame IS stack slot slot_base + operand
+    //@fn file=yarel/src/vm.rs path=Vm::get_local_impl props=C06,C04
+    //@  rewrite R25
+    //@  subst "self.active_fiber().current_frame().unwrap().slot_base" => "self.current_slot_base()"
+    //@  requires 0 <= old(self).ip < old(self).code.len(), old(self).slot_base >= 0, old(self).stack_mapped(), old(self).slot_base + old(self).operand() < old(self).fib.sp < usize::MAX
+    //@  ensures @get_local_pushes_the_content_of_the_named_slot final(self).fib.mem.m == old(self).fib.mem.m.insert(old(self).fib.sp, old(self).fib.mem.m[old(self).slot_base + old(self).operand()]) && final(self).fib.sp == old(self).fib.sp + 1
+    //@  ensures final(self).ip == old(self).ip + 1, final(self).fib.uvheap == old(self).fib.uvheap, final(self).fib.open_list == old(self).fib.open_list
+    //@end
+    //@fn file=yarel/src/vm.rs path=Vm::set_local_impl props=C06,C04
+    //@  rewrite R32
+    //@  subst "self.active_fiber().current_frame().unwrap().slot_base" => "self.current_slot_base()"
+    //@  requires 0 <= old(self).ip < old(self).code.len(), old(self).slot_base >= 0, old(self).stack_mapped(), old(self).slot_base + old(self).operand() < old(self).fib.sp < usize::MAX
+    //@  ensures @set_local_overwrites_exactly_the_named_slot_and_keeps_the_value_on_the_stack final(self).fib.mem.m == old(self).fib.mem.m.insert(old(self).slot_base + old(self).operand(), old(self).fib.mem.m[old(self).fib.sp - 1]) && final(self).fib.sp == old(self).fib.sp
+    //@  ensures final(self).ip == old(self).ip + 1, final(self).fib.uvheap == old(self).fib.uvheap, final(self).fib.open_list == old(self).fib.open_list
+    //@end
+    // GetUpvalue / SetUpvalue: captured variable `operand` of the running closure, through its cell
+    //@fn file=yarel/src/vm.rs path=Vm::get_upvalue_impl props=C06,C04
+    //@  subst "self .active_fiber() .current_frame() .unwrap() .closure .upvalues .borrow()[upvalue_index] .borrow() .get()" => "self.active_fiber().uvheap.get(self.enclosing_upvalue(upvalue_index)).get(&self.active_fiber().mem)"
+    //@  requires 0 <= old(self).ip < old(self).code.len(), old(self).up_ok(old(self).operand())
+    //@  ensures @get_upvalue_pushes_the_captured_variables_value final(self).fib.mem.m == old(self).fib.mem.m.insert(old(self).fib.sp, var_value(old(self).up_cell(old(self).operand()), old(self).fib.mem.m)) && final(self).fib.sp == old(self).fib.sp + 1
+    //@  ensures final(self).ip == old(self).ip + 1, final(self).fib.uvheap == old(self).fib.uvheap, final(self).fib.open_list == old(self).fib.open_list
+    //@end
+    //@fn file=yarel/src/vm.rs path=Vm::set_upvalue_impl props=C06,C04
+    //@  subst "self.active_fiber().current_frame().unwrap().closure" => "self.current_closure()"
+    //@  subst "closure.upvalues.borrow_mut()[upvalue_index] .borrow_mut() .set(stack_value);" => "{ let verif_cell = self.enclosing_upvalue(upvalue_index); let verif_f = self.active_fiber_mut(); verif_f.uvheap.get_mut(verif_cell).set(stack_value, &mut verif_f.mem); }"
+    //@  requires 0 <= old(self).ip < old(self).code.len(), old(self).up_ok(old(self).operand()), 0 < old(self).fib.sp < usize::MAX, old(self).stack_mapped()
+    //@  ensures @set_upvalue_writes_the_captured_variable var_value(final(self).up_cell(old(self).operand()), final(self).fib.mem.m) == old(self).fib.mem.m[old(self).fib.sp - 1]
+    //@  ensures @set_upvalue_touches_no_other_cell forall|c: int| c != old(self).enclosing[old(self).operand()].id() && old(self).fib.uvheap.cells.dom().contains(c) ==> final(self).fib.uvheap.cells[c] == old(self).fib.uvheap.cells[c]
+    //@  ensures @set_upvalue_writes_at_most_the_slot_the_cell_is_open_on (old(self).up_cell(old(self).operand()).data matches ObjUpvalueState::Open(a) ==> final(self).fib.mem.m == old(self).fib.mem.m.insert(a as int, old(self).fib.mem.m[old(self).fib.sp - 1])) && (old(self).up_cell(old(self).operand()).data is Closed ==> final(self).fib.mem.m == old(self).fib.mem.m)
+    //@  ensures final(self).ip == old(self).ip + 1, final(self).fib.sp == old(self).fib.sp, final(self).fib.open_list == old(self).fib.open_list, final(self).enclosing == old(self).enclosing
+    //@end
 
     // Capturing stack slot `location`: the cell already open for that slot is returned (so all closures capturing the
     // variable share one cell), otherwise exactly one fresh cell is linked in at its sorted position; every other open
